@@ -197,7 +197,9 @@ func genFOBase(r *rand.Rand, sh foShape) *Scenario {
 
 func init() {
 	gens["C01"] = func(r *rand.Rand, run int, _ string) *Scenario {
-		sc := genFOBase(r, foShape{minClients: 2, maxClients: 8, maxKeys: 3, maxOps: 4, sleeps: true, skipRead: true})
+		// a quarter of the runs: callers cancel, rewrite their key slice with another key of the scenario or re-use one
+		// buffer after Get returned (a background update that still looks at the caller's slice releases another key's lock)
+		sc := genFOBase(r, foShape{minClients: 2, maxClients: 8, maxKeys: 3, maxOps: 4, sleeps: true, skipRead: true, callerTricks: run%4 == 1})
 
 		if run%20 == 19 {
 			// the Failover creates backend and failure cache itself (BackendConfig path of NewFailover*)
